@@ -54,6 +54,30 @@ def consults : List (String × List String) := [
   ("addSimpleSignature", ["MYHOSTNAME"]),
   ("DoPostArticle", ["MAX_POST_MONEY", "QUERY_ARTICLE_URL", "USE_COOLDOWN", "USE_HIDDEN_BOARD_NOCREDIT"])]
 
+/-! ### the site's time zone (types/config.go, types/config_util.go)
+
+`types.TIME_LOCATION` is the configured zone NAME, `types.TIMEZONE` the loaded zone every `Time4` formatter
+(`Cdatemd` of the index date, `Ctime` of the header) converts with.  Only names are modelled: `zone` is the name
+`TIMEZONE` was loaded from; the formatting itself is an environment parameter (`Env.date`, `Env.ctime`). -/
+structure TZ where
+  location : String      -- TIME_LOCATION
+  zone : String          -- the name TIMEZONE was loaded from
+  deriving Repr, DecidableEq
+
+/-- `setTimeLocation` for a loadable name: store the name, load the zone. -/
+def setTimeLocation (_s : TZ) (z : String) : TZ := ⟨z, z⟩
+
+/-- the seeded variant: "nothing to do when the name is unchanged". -/
+def setTimeLocationLazy (s : TZ) (z : String) : TZ := if z = s.location then s else ⟨z, z⟩
+
+/-- `types.InitConfig`: `config()` stores the configured name (if the ini file has one) into TIME_LOCATION,
+then `postConfig()` calls `setTimeLocation(TIME_LOCATION)`. -/
+def initConfigTZWith (set : TZ → String → TZ) (s : TZ) (configured : Option String) : TZ :=
+  let s1 : TZ := { s with location := configured.getD s.location }
+  set s1 s1.location
+
+def initConfigTZ : TZ → Option String → TZ := initConfigTZWith setTimeLocation
+
 /-! ### the title pipeline -/
 
 /-- `doPostArticleFullTitle`: `"[" ++ class ++ "] " ++ title` when a class is given. -/
@@ -74,6 +98,10 @@ the title (capacity = length) is shorter than the tag. -/
 def isTnAnnounceOld (title : Bytes) : M Bool := do
   let p ← slice title 0 TN.length
   pure (p == TN)
+
+/-- a seeded variant of `isTnAnnounce`: the tag is looked for behind leading blanks (`bytes.TrimLeft(title, " ")`),
+while `tnSafeStrip` still cuts `len(TN)` bytes from the START of the title. -/
+def isTnAnnounceTrimLeft (title : Bytes) : M Bool := pure (hasPrefix (title.dropWhile (· = 32)) TN)
 
 /-- `isTnAllowed`. `role` = `isModeBoard(..) || HasUserPerm(SYSOP|ACCOUNTS|BOARD|BBSADM|VIEWSYSOP|POLICE_MAN)
 || HasUserPerm(SYSSUPERSUBOP|SYSSUBOP)` (permission bits: property C08). -/
